@@ -194,13 +194,22 @@ theorem ref_diffFirst {b : Bag} (h : Good b) : Refines b .diffFirst := by
 
 theorem matchPanics_false (L : Nat) (rows : List (String × Seq)) (h : ∀ p ∈ rows, p.2.length = L) :
     matchPanics L rows = false := by
-  have hany : (rows.any fun r => decide (r.2.length < L)) = false := by
-    simp only [List.any_eq_false, decide_eq_true_eq, Nat.not_lt]
-    intro r hr; rw [h r hr]; exact Nat.le_refl _
-  match rows, hany with
+  match rows, h with
   | [], _ => rfl
   | [_], _ => rfl
-  | _ :: _ :: _, hany => simpa [matchPanics] using hany
+  | r :: o :: t, h =>
+    have hr : r.2.length = L := h r (by simp)
+    have h1 : decide (r.2.length < L) = false := by simp; omega
+    have h2 : ((o :: t).any fun q => (List.range L).any fun i => decide (q.2.length ≤ i) && r.2.getD i 0 != POINT) = false := by
+      rw [List.any_eq_false]
+      intro q hq
+      rw [Bool.not_eq_true, List.any_eq_false]
+      intro i hi
+      have hql : q.2.length = L := h q (List.mem_cons_of_mem _ hq)
+      have hiL : i < L := List.mem_range.mp hi
+      have : decide (q.2.length ≤ i) = false := by simp; omega
+      simp [this]
+    simp only [matchPanics, h1, h2, Bool.or_false]
 
 theorem matchSeq_eq (L : Nat) (f o : Seq) (hf : f.length = L) (ho : o.length = L) :
     matchSeq L f o = o.zipIdx.map fun (c, i) => if c == POINT then (f[i]?).getD c else c := by
